@@ -180,7 +180,8 @@ func kindOf(ins ssa.Instruction) (string, string) {
 
 // callAux classifies a call instruction independently of the analysis: builtin:<name> for a real ssa.Builtin callee,
 // errinvoke for the invoke of a zero-argument method Error, shadow:<name> for a non-builtin callee whose Value.Name() is
-// one of the names the analysis treats as a builtin, plain otherwise.
+// one of the names the analysis treats as a builtin, plain otherwise.  The P line of a call also carries nodes=<call nodes in the
+// summary>, callees=<callees resolved by AnalyzerState.ResolveCallee>, nargs=<len(Common().Args)>.
 func callAux(ci ssa.CallInstruction) string {
 	c := ci.Common()
 	if b, ok := c.Value.(*ssa.Builtin); ok {
@@ -190,7 +191,7 @@ func callAux(ci ssa.CallInstruction) string {
 		return "ubuiltin:" + b.Name()
 	}
 	if c.IsInvoke() {
-		if c.Method.Name() == "Error" && len(c.Args) == 0 && !handledBuiltinNames[c.Value.Name()] {
+		if c.Method.Name() == "Error" && len(c.Args) == 0 {
 			return "errinvoke"
 		}
 	}
@@ -402,7 +403,14 @@ func (d *dumper) dumpFunction(fn *ssa.Function, tag string) {
 				c := x.Common()
 				nres := c.Signature().Results().Len()
 				nn := len(sm.Callees[x])
-				aux = fmt.Sprintf("%s,nres=%d,nodes=%d,fn=%d", aux, nres, nn, vid(c.Value))
+				// callees resolved by the analyzer state's own resolution (static callee / contracts / call graph / interface
+				// implementations), asked independently of the summary's node creation: a non-builtin call with a resolved
+				// callee must have a call node
+				ncallees := 0
+				if cs, err := d.state.ResolveCallee(x, true); err == nil {
+					ncallees = len(cs)
+				}
+				aux = fmt.Sprintf("%s,nres=%d,nodes=%d,fn=%d,callees=%d,nargs=%d", aux, nres, nn, vid(c.Value), ncallees, len(c.Args))
 				if call, isCall := ins.(*ssa.Call); isCall && !strings.HasPrefix(aux, "builtin:") && !strings.HasPrefix(aux, "errinvoke") {
 					for i := 0; i < nres; i++ {
 						t := 0
